@@ -1,4 +1,6 @@
 import PV.Model.Queues
+import PV.Model.RingReserve
+import PV.Lemmas.Queues.Ring2
 import PV.Lemmas.Queues
 /-
 C16 — thread hand-off queues deliver every item once, in order, without deadlock.
@@ -108,6 +110,54 @@ theorem ring_deadlocks_with_one_block :
   exact ⟨PV.Lemmas.Queues.Ring.p1, PV.Lemmas.Queues.Ring.s1, rfl, Nat.le_refl 1, PV.Lemmas.Queues.Ring.s1_reachable,
     PV.Lemmas.Queues.Ring.s1_not_final, PV.Lemmas.Queues.Ring.s1_stuck⟩
 end Ring
+
+/-! ### the ring with write() and the in-place operator<< path (short blocks); the trace acceptor uses this model -/
+section Ring2
+open Ring2
+
+/-- the caller and the writer thread never hold the same block. -/
+theorem ring2_exclusive (p : Params) (hn : 2 ≤ p.nBlocks) (hb : 1 ≤ p.blockSize) (hw : p.WF) (s : State) (hr : Reachable p s) :
+    s.bad = false := by
+  obtain ⟨A, D, Qd, h⟩ := PV.Lemmas.Queues.Ring2.reach_inv (by omega) hb hw hr
+  exact h.bad
+
+/-- the bytes given to the Writer are always a prefix of the concatenation of all operations' bytes, -/
+theorem ring2_bytes_prefix (p : Params) (hn : 2 ≤ p.nBlocks) (hb : 1 ≤ p.blockSize) (hw : p.WF) (s : State) (hr : Reachable p s) :
+    s.file <+: allBytes p := by
+  obtain ⟨A, D, Qd, h⟩ := PV.Lemmas.Queues.Ring2.reach_inv (by omega) hb hw hr
+  exact PV.Lemmas.Queues.Ring2.inv_prefix h
+
+/-- and once the destructor has returned the file is exactly that concatenation (also when short blocks were handed
+    over in between). -/
+theorem ring2_bytes (p : Params) (hn : 2 ≤ p.nBlocks) (hb : 1 ≤ p.blockSize) (hw : p.WF) (s : State) (hr : Reachable p s)
+    (hf : Final s) : s.file = allBytes p := by
+  obtain ⟨A, D, Qd, h⟩ := PV.Lemmas.Queues.Ring2.reach_inv (by omega) hb hw hr
+  exact PV.Lemmas.Queues.Ring2.inv_final h hf
+
+/-- no reachable state is stuck before the destructor has returned. -/
+theorem ring2_no_deadlock (p : Params) (hn : 2 ≤ p.nBlocks) (hb : 1 ≤ p.blockSize) (hw : p.WF) (s : State) (hr : Reachable p s) :
+    Final s ∨ ∃ l s', step p s l = some s' := by
+  obtain ⟨A, D, Qd, h⟩ := PV.Lemmas.Queues.Ring2.reach_inv (by omega) hb hw hr
+  exact PV.Lemmas.Queues.Ring2.inv_no_deadlock hn h
+
+/-- every execution is finite. -/
+theorem ring2_terminates (p : Params) (hn : 2 ≤ p.nBlocks) (hb : 1 ≤ p.blockSize) (hw : p.WF) :
+    ∃ μ : State → Nat, ∀ s l s', Reachable p s → step p s l = some s' → μ s' < μ s := by
+  have _ := hn
+  have _ := hw
+  exact ⟨PV.Lemmas.Queues.Ring2.mu, fun _ _ _ _ hs => PV.Lemmas.Queues.Ring2.mu_decreases hb hs⟩
+
+/-- the Ensure amounts of the real stream satisfy `WF`: a block holds the longest in-place text. -/
+theorem kBlockSize_holds_any_number : PV.Gen.kToStringMaxBytes ≤ PV.Gen.kBlockSize := by
+  decide
+
+-- non-vacuity: blockSize 4, "abc" written, then a 2-byte number with Ensure(3): the block holding "abc" is handed over short
+example : ((Ring2.runTrace ⟨3, 4, [⟨0, [97, 98, 99]⟩, ⟨3, [49, 50]⟩]⟩ (Ring2.init ⟨3, 4, [⟨0, [97, 98, 99]⟩, ⟨3, [49, 50]⟩]⟩)
+    [.pAcquire, .pCall, .pCopy, .pCall, .pSpill, .pAcquire, .pCopy, .pSpill, .cAcquire, .cWrite, .cRelease, .cAcquire, .cWrite, .cRelease,
+     .pAcquire, .pSpill, .cAcquire, .cWrite, .pAcquire, .pJoin]).map (·.file)) = some [97, 98, 99, 49, 50] := by
+  decide
+
+end Ring2
 
 -- non-vacuity: a complete PCQueue run with capacity 1
 example : ((PCQ.runTrace ⟨1, [[(0, 0), (0, 1)]], [2]⟩ (PCQ.init ⟨1, [[(0, 0), (0, 1)]], [2]⟩)
